@@ -128,15 +128,16 @@ class V1Parser:
         with convertError(ValueError, MissingAddressData):
             destPort = line.split(b" ")[0]
 
-        if networkProtocol == cls.TCP4_PROTO:
+        with convertError(ValueError, InvalidProxyHeader):
+            if networkProtocol == cls.TCP4_PROTO:
+                return _info.ProxyInfo(
+                    originalLine,
+                    address.IPv4Address("TCP", sourceAddr.decode(), int(sourcePort)),
+                    address.IPv4Address("TCP", destAddr.decode(), int(destPort)),
+                )
+
             return _info.ProxyInfo(
                 originalLine,
-                address.IPv4Address("TCP", sourceAddr.decode(), int(sourcePort)),
-                address.IPv4Address("TCP", destAddr.decode(), int(destPort)),
+                address.IPv6Address("TCP", sourceAddr.decode(), int(sourcePort)),
+                address.IPv6Address("TCP", destAddr.decode(), int(destPort)),
             )
-
-        return _info.ProxyInfo(
-            originalLine,
-            address.IPv6Address("TCP", sourceAddr.decode(), int(sourcePort)),
-            address.IPv6Address("TCP", destAddr.decode(), int(destPort)),
-        )
